@@ -54,6 +54,7 @@ type Source struct {
 	FailAt      int   // byte offset that cannot be read; -1: none
 	Together    bool  // the error is returned together with the bytes that precede FailAt
 	Sticky      bool  // non-seekable model: once fired, every later Read fails
+	OneShot     bool  // the error is reported exactly once; later reads continue where the source stands
 	Fired       bool
 	i           int
 }
@@ -83,7 +84,7 @@ func (s *Source) Read(p []byte) (int, error) {
 	if n > len(s.Data)-s.Pos {
 		n = len(s.Data) - s.Pos
 	}
-	if s.FailAt >= 0 && s.Pos <= s.FailAt && s.Pos+n > s.FailAt {
+	if s.FailAt >= 0 && s.Pos <= s.FailAt && s.Pos+n > s.FailAt && !(s.OneShot && s.Fired) {
 		n = s.FailAt - s.Pos
 		if n == 0 || s.Together {
 			s.Fired = true
